@@ -42,7 +42,7 @@ PROPS = {
     },
     "C12": {
         "harness": "vh-types",
-        "level_text": "Partial. Kernel-checked theorems about the recursion guards only, as walks over an arbitrary finite declaration graph with cyclic aliases and cyclic inheritance allowed: TypeCheckGuard admits levels 1..100 and every guarded recursion past it answers TypeRecursion; get_alias_real_type never needs more than 102 - level steps for any graph; get_real_type stops after ten hops; super_reaches never re-enters a visited declaration; the humanizer renders nothing once its depth guard is used up; re-entering the unfolding of an alias for the same compact type answers TypeRecursion at once (after the alias-in-progress fix); witnesses for cyclic inheritance, cyclic aliases and the formerly exponential cyclic union aliases. The check_type_compact model is compared with the implementation on generated cyclic graphs every run (in a child process with a time budget). Everything else is search only: the whole pipeline (index, full diagnostics, semantic info at every token) on generated and mutated annotated programs x 2 configurations in child processes with a 2 MiB stack, catch_unwind and a per-program time budget.",
+        "level_text": "Partial. Kernel-checked theorems about the recursion guards only, as walks over an arbitrary finite declaration graph with cyclic aliases and cyclic inheritance allowed: TypeCheckGuard admits levels 1..100 and every guarded recursion past it answers TypeRecursion; get_alias_real_type never needs more than 102 - level steps for any graph; get_real_type stops after ten hops; super_reaches never re-enters a visited declaration; the humanizer renders nothing once its depth guard is used up; re-entering the unfolding of an alias for the same compact type answers TypeRecursion at once (after the alias-in-progress fix); witnesses for cyclic inheritance, cyclic aliases and the formerly exponential cyclic union aliases; the depth-guarded walks over alias-resolved union members (remove_type / intersect_type / narrow_down_type / has_non_callable_member) stop at depth 0 and make at most 1 + b + ... + b^d calls on any graph; a generic alias in the substitutor's chain is not unfolded again, and member lookup unfolds a growing generic alias at most 32 - level times. The check_type_compact model is compared with the implementation on generated cyclic graphs every run (in a child process with a time budget). Everything else is search only: the whole pipeline (index, full diagnostics, semantic info at every token) on generated and mutated annotated programs (incl. recursive, mutually recursive and growing generic aliases used in member access, calls, assignments, narrowing and rendering; dense multi-super inheritance cycles; tuple templates) x 2 configurations in child processes with a 2 MiB stack, catch_unwind and a per-program time budget.",
         "level_note": "Proof level covers the guards; crash-freedom of the rest of the pipeline is exploration-level evidence. Not proved: that the model's fuel is never exhausted by check_type_compact as a whole (the same-level recursion through union members), nor any bound on total work below the guard (see finding C12-cyclic-alias-blowup).",
         "trusted_base": TY_TB + ["child processes: a program that kills or hangs the child is attributed by the progress file"],
         "assumptions": ["2 configurations (default strict flags / relaxed), no standard library loaded", "time budget 10 s per program, 5 s per check_type_compact call"],
